@@ -33,6 +33,7 @@ import (
 	"runtime/debug"
 	"sort"
 	"strings"
+	"sync/atomic"
 	"time"
 
 	"github.com/influxdata/influxdb/coordinator"
@@ -1383,6 +1384,10 @@ type srcIter struct {
 	pts   []genPoint
 	i     int
 	stats query.IteratorStats
+	// pause > 0: every pauseEvery-th Next takes that long, so that the
+	// encoder's stats ticker (set below pause) fires inside the streaming loop
+	pause      time.Duration
+	pauseEvery int
 }
 
 func (it *srcIter) Stats() query.IteratorStats { return it.stats }
@@ -1393,12 +1398,18 @@ func (it *srcIter) next() *genPoint {
 	}
 	p := &it.pts[it.i]
 	it.i++
+	if it.pause > 0 && it.i%it.pauseEvery == 0 {
+		time.Sleep(it.pause)
+		atomic.AddInt64(&streamPauses, 1)
+	}
 	it.stats.PointN++
 	if it.i%3 == 1 {
 		it.stats.SeriesN++
 	}
 	return p
 }
+
+var streamPauses int64
 
 type floatSrc struct{ *srcIter }
 type integerSrc struct{ *srcIter }
@@ -1478,6 +1489,11 @@ func streamCase(caseID string, typ influxql.DataType, seed int64) {
 	}
 	src := &srcIter{typ: typ, pts: pts, stats: query.IteratorStats{SeriesN: g.Intn(100), PointN: g.Intn(1000)}}
 	initial := src.stats
+	// slow remote iterator: stats frames get interleaved with the points
+	slow := n >= 5 && g.Intn(3) == 0
+	if slow {
+		src.pause, src.pauseEvery = 3*time.Millisecond, 1+g.Intn(4)
+	}
 	var in query.Iterator
 	switch typ {
 	case influxql.Float:
@@ -1538,6 +1554,9 @@ func streamCase(caseID string, typ influxql.DataType, seed int64) {
 			return
 		}
 		enc := query.NewIteratorEncoder(pw)
+		if slow {
+			enc.StatsInterval = time.Millisecond
+		}
 		err := enc.EncodeIterator(in)
 		if err == nil && withTrace {
 			err = enc.EncodeTrace(remoteTrace)
